@@ -38,6 +38,9 @@ RULE = ("pairs: a generated base history (as C03: 1-3 key columns, boundary-rich
 ASSUMPTIONS = base.ASSUMPTIONS + [
     "equal positions give equal draws because a draw is the element of the seeded block at the simulant's position "
     "(C02); the sims stream checks the draws themselves (two decision points, every step)",
+    "an integer / float key value reaches the model as its mathematical value whatever the storage type (int8..int64, "
+    "uint8..uint64, nullable Int*/UInt*, float32/float64, Float32/Float64); storage types are varied on purpose between "
+    "the two members of a pair and between batches; one map never mixes uint64/UInt64 storage with signed storage",
     "two simulations are comparable when seed and block size agree; the storage unit of datetime key columns may differ "
     "(identity is the instant: commit 11362e66) and is varied on purpose between the two members of a pair",
 ]
@@ -82,8 +85,11 @@ def fresh_key(rng, like, dtypes, size, seen, j):
             if dt.startswith("d:"):
                 v = c[1] + rng.randint(-10 ** 7, 10 ** 7) * base.NPU[dt[2:]]
                 k.append(["d", v if abs(v) < 9 * 10 ** 18 else c[1] + base.NPU[dt[2:]] * rng.randint(1, 999)])   # inside the ns range
-            elif dt == "i":
-                k.append(["i", base.gen_int(rng, rng.choice(["small", "seq", "big", "mult"]), j, size)])
+            elif base.kind(dt) == "i":
+                if dt[2:] in base.UNSIGNED:        # the column lives in unsigned storage (maybe above 2**63): stay non-negative
+                    k.append(["i", base.gen_int(rng, rng.choice(["small", "seq", "ulim"]), j, size)])
+                else:
+                    k.append(["i", base.gen_int(rng, rng.choice(["small", "seq", "big", "mult", "lim"]), j, size)])
             else:
                 k.append(["f", float(base.gen_float(rng, rng.choice(["dyadic", "decimal", "age"]), j)).hex()])
         if base.py_key(k) not in seen:
@@ -154,6 +160,9 @@ def derive(rng, A, kinds):
             if l < 0:
                 st["labels"][i] = nxt
                 nxt += 1
+    # storage types of the integer / float columns: B keeps A's unless told to store the SAME values in other widths /
+    # signedness / nullable types ("retype")
+    base.fit_types(steps, rng, retype="retype" in kinds)
     if "reunit" in kinds:
         # the counterfactual stores the same instants (and clock) in other units: s / ms / us / ns
         base.fit_units(steps, rng, reunit=True)
@@ -181,7 +190,8 @@ def derive(rng, A, kinds):
 KIND_SETS = [["permute"], ["relabel"], ["superset"], ["subset"], ["split"], ["permute", "relabel"],
              ["superset", "permute"], ["superset", "relabel", "permute"], ["split", "permute"], ["split", "relabel"],
              ["subset", "superset", "permute", "relabel"], ["merge"], ["merge", "permute"], [],
-             ["reunit"], ["reunit"], ["reunit", "permute"], ["reunit", "relabel", "superset"], ["reunit", "split"]]
+             ["reunit"], ["reunit"], ["reunit", "permute"], ["reunit", "relabel", "superset"], ["reunit", "split"],
+             ["retype"], ["retype"], ["retype", "permute"], ["retype", "relabel", "superset"], ["retype", "merge"]]
 
 
 def gen_pair(rng):
@@ -198,6 +208,9 @@ def gen_pair(rng):
     has_dates = any(dt.startswith("d:") for st in A["steps"] for dt in st["dtypes"]) or any(st["t"][0] == "d" for st in A["steps"])
     if has_dates and "reunit" not in kinds and rng.random() < 0.5:
         kinds.append("reunit")
+    has_num = any(base.kind(dt) in "if" for st in A["steps"] for dt in st["dtypes"])
+    if has_num and "retype" not in kinds and rng.random() < 0.5:
+        kinds.append("retype")
     return {"A": A, "B": derive(rng, A, kinds), "kinds": kinds}
 
 
@@ -386,13 +399,14 @@ def gen_sim(rng):
     return {"schema": schema, "pop": [pop, pop_b], "sched": [sched_a, sched_b], "order": [rng.choice(["id", "id", "rev", "shuf"]),
             rng.choice(["id", "rev", "shuf"])], "map_size": map_size, "seed": rng.randint(0, 99), "aseed": rng.getrandbits(30),
             "step_days": rng.choice([1, 1, 7, 28]), "start": [rng.choice([1990, 2005, 2020]), rng.randint(1, 12), rng.randint(1, 28)],
-            "et_units": [rng.choice(["us", "ns", "s", "ms"]), rng.choice(["us", "ns", "s", "ms"])]}
+            "et_units": [rng.choice(["us", "ns", "s", "ms"]), rng.choice(["us", "ns", "s", "ms"])],
+            "uid_types": [rng.choice(["int64", "int32", "Int16", "uint16", "UInt32", "uint64"]), rng.choice(["int64", "int32", "int16", "uint32", "Int64", "UInt16"])]}
 
 
 def corpus_sims():
     return [
         {"schema": "uid", "pop": [5, 5], "sched": [[2, 0, 3], [4, 1, 3]], "order": ["id", "rev"], "map_size": 0, "seed": 1,
-         "aseed": 7, "step_days": 1, "start": [2005, 7, 1]},
+         "aseed": 7, "step_days": 1, "start": [2005, 7, 1], "uid_types": ["int64", "int32"]},
         {"schema": "et_age", "pop": [4, 4], "sched": [[1, 1, 1, 1], [3, 3, 3, 3]], "order": ["id", "shuf"], "map_size": 0, "seed": 0,
          "aseed": 9, "step_days": 28, "start": [2020, 1, 1], "et_units": ["us", "ns"]},
         {"schema": "et_age", "pop": [5, 5], "sched": [[2, 2, 0], [2, 1, 3]], "order": ["id", "rev"], "map_size": 0, "seed": 3,
@@ -407,7 +421,7 @@ def cohort_values(case, cohort, n):
     vals, seen = [], set()
     while len(vals) < n:
         if case["schema"] == "uid":
-            v = cohort * 100 + len(vals) * r.choice([1, 1, 3]) + r.choice([0, 0, 10 ** 10])
+            v = cohort * 100 + len(vals) * r.choice([1, 1, 3]) + r.choice([0, 0, 30000, 30000, 10 ** 10])
         else:
             # ages: unique across cohorts (the hundreds digit is the cohort), fractional parts repeat on purpose
             v = 100.0 * cohort + r.choice([r.randint(0, 1599) / 16.0, r.randint(0, 999) / 10.0, r.uniform(0, 99.9), 0.0, 0.5])
@@ -437,6 +451,16 @@ def make_population(case, which, log):
             self.creator = builder.population.get_simulant_creator()
             self.cohort = 0
             self.step = 0
+            # ONE storage type for the uid column in this scenario (the state table does not like a column changing
+            # its type while simulants are added - finding F-L): the wanted narrow type if every value any cohort can
+            # offer fits, else the 64-bit type of the same flavour
+            want = case.get("uid_types", ["int64", "int64"])[which]
+            if case["schema"] == "uid":
+                every = [int(v) for c in range(len(case["sched"][which]) + 2) for v in cohort_values(case, c, 8)]
+                lo, hi = base.INT_TYPES[want]
+                if not all(lo <= v <= hi for v in every):
+                    want = "uint64" if want[0] in "uU" else "Int64" if want[0] == "I" else "int64"
+            self.uid_type = want
             self.rng = random.Random(case["aseed"] + (17 if which else 0))
 
         def on_initialize_simulants(self, pop_data):
@@ -451,7 +475,7 @@ def make_population(case, which, log):
             df = pd.DataFrame(index=pop_data.index)
             df["entrance_time"] = pd.Series(pop_data.creation_time, index=pop_data.index).dt.as_unit(case.get("et_units", ["us", "us"])[which])
             if case["schema"] == "uid":
-                df["uid"] = [int(v) for v in vals]
+                df["uid"] = pd.array([int(v) for v in vals], dtype=self.uid_type)
                 df["age"] = 0.0
             else:
                 df["age"] = [float(v) for v in vals]
@@ -460,7 +484,7 @@ def make_population(case, which, log):
             df["d1"] = self.s1.get_draw(pop_data.index)
             df["d2"] = self.s2.get_draw(pop_data.index, additional_key="init")
             self.population_view.update(df)
-            log.append(("init", self.key_of(df), [x.hex() for x in df["d1"]], [x.hex() for x in df["d2"]]))
+            log.append(("init", [int(l) for l in df.index], [x.hex() for x in df["d1"]], [x.hex() for x in df["d2"]]))
 
         def key_of(self, df):
             cols = [_cell_of(df[c])[0] for c in KEYCOLS[case["schema"]]]
@@ -472,7 +496,7 @@ def make_population(case, which, log):
             d2 = self.s2.get_draw(pop.index, additional_key=3)
             pop["d1"], pop["d2"] = d1, d2
             self.population_view.update(pop[["d1", "d2"]])
-            log.append(("step", self.key_of(pop), [x.hex() for x in d1], [x.hex() for x in d2]))
+            log.append(("step", [int(l) for l in pop.index], [x.hex() for x in d1], [x.hex() for x in d2]))
             n = case["sched"][which][self.step] if self.step < len(case["sched"][which]) else 0
             self.step += 1
             if n > 0:
@@ -491,10 +515,10 @@ def _cell_of(col):
     m = re.match(r"datetime64\[(\w+)\]", dt)
     if m:
         return [("d", int(v) * base.NPU[m.group(1)]) for v in col.to_numpy().view("i8")], f"d:{m.group(1)}"
-    if dt == "int64":
-        return [("i", int(v)) for v in col.to_numpy()], "i"
-    if dt == "float64":
-        return [("f", float(v).hex()) for v in col.to_numpy()], "f"
+    if dt in base.INT_TYPES:
+        return [("i", int(v)) for v in col.tolist()], "i:" + dt
+    if dt in base.FLOAT_TYPES:
+        return [("f", float(v).hex()) for v in col.tolist()], "f:" + dt
     return [("b", str(v)) for v in col.tolist()], "b:str"
 
 
@@ -552,10 +576,14 @@ def run_one_sim(case, which):
             sim.step()
     finally:
         IndexMap.update = orig
+    # a simulant's identity is the key it was REGISTERED with (recorded at IndexMap.update), not what the state table
+    # shows later
+    key_of_label = {l: base.py_key(k) for l, k, _ in registered}
     traj = {}
-    for kind, keys, d1, d2 in log:
-        for k, a, b in zip(keys, d1, d2):
-            traj.setdefault(base.py_key([list(c) for c in k]), []).append((a, b))
+    for _what, labels, d1, d2 in log:
+        for l, a, b in zip(labels, d1, d2):
+            if l in key_of_label:
+                traj.setdefault(key_of_label[l], []).append((a, b))
     size = sizes[0] if sizes else 0
     hist = {"size": size, "crn": True, "fuel": FUEL, "steps": steps, "qseed": case["aseed"]}
     if uncounted:
@@ -686,7 +714,7 @@ def streams(tier):
     imp = "From Viv Require Import Common IndexMap."
     return [
         Stream(name="pairs", imports=imp, check="check_c04", gen=gen_pair, run=run_pair, corpus=corpus_pairs, shrink=shrink_pair,
-               n_quick=60, n_thorough=500),
+               n_quick=50, n_thorough=450),
         Stream(name="sims", imports=imp, check="check_c04", gen=gen_sim, run=run_sim, corpus=corpus_sims, shrink=shrink_sim,
                n_quick=18, n_thorough=200),
     ]
